@@ -1,8 +1,8 @@
 CONSTANTS
  Vals = {"a", "b", "c"}
  V0 = "a"
- MaxEdits = 3
- MaxTrans = 2
+ MaxEdits = 1
+ MaxTrans = 1
  AccelAllowed = TRUE
  FullScans = TRUE
  ResetInTransition = TRUE
@@ -10,7 +10,7 @@ CONSTANTS
  StrobeInTransition = TRUE
  PartialOutcomes = TRUE
  ShallowChangeTest = FALSE
- CacheFromPoller = FALSE
+ CacheFromPoller = TRUE
  FixLevel = 2
 INIT Init
 NEXT Next
